@@ -106,14 +106,14 @@ theorem entry_lt (ht : FlowsOK F cfg) {e : Nat × Nat} (he : e ∈ cfg.weights) 
 theorem flows_nodup (ht : FlowsOK F cfg) : (cfg.weights.map (·.1)).Nodup :=
   ht.1.nodup_iff.mpr List.nodup_range
 
-theorem cfgOk_of (ht : FlowsOK F cfg) : DRR.CfgOk cfg := ⟨flows_nodup ht, ht.2⟩
+theorem cfgOk_of (ht : FlowsOK F cfg) : DRR.CfgOk cfg := ⟨flows_nodup ht, ht.2.1⟩
 
 /-- the quantum of every class is at least `MIN_QUANTUM` -/
 theorem qOf_ge (ht : FlowsOK F cfg) (c : Nat) : 1500 ≤ qOf cfg c := by
   unfold qOf
   cases h : DRR.quantum cfg c with
   | none => simp
-  | some q => simpa using DRR.quantum_ge cfg ht.2 c q h
+  | some q => simpa using DRR.quantum_ge cfg ht.2.1 c q h
 
 /-- a declared class has the quantum `qOf` -/
 theorem quantum_eq (ht : FlowsOK F cfg) {c : Nat} (hc : c < F) : DRR.quantum cfg c = some (qOf cfg c) := by
